@@ -4,12 +4,16 @@
    the parser and the two-pass assembler, lifted with forall_range' so that the bound is in the
    statement.  Origins: x0000, x3000, x8000 and xFDFF (the last address at which one word fits
    below the I/O page); "any address" beyond these four is covered on the implementation by the
-   harness (16 origins in the thorough tier) — the statement for an arbitrary origin is
-   C07_roundtrip_at_origins_partial in that sense (the printed text contains no label, so the
-   assembled word does not depend on the location counter; not yet proved in general). *)
+   harness (16 origins in the thorough tier).
+   C07_roundtrip (below) is the statement for EVERY origin x0000..xFDFF: the header ".orig xOOOO"
+   has the same length for every origin, so the rest of the text parses to the same statement
+   (one more sweep over the 65536 words, independent of the origin, + a symbolic lemma for the
+   header line), that statement carries no label, and a label-free statement assembles to the
+   same word at every origin (C07_position_independent_ast, proved on the assembler model for
+   symbolic origin).  C07_roundtrip_at_origins_partial is kept (it is an instance). *)
 From Coq Require Import ZArith List Bool.
 From Model Require Import Tree Bits Text Instr AsmAst Obj Lexer Parser Print Assembler Disasm.
-From Proofs Require Import Ranges DisasmProofs.
+From Proofs Require Import Ranges DisasmProofs AsmOrigin DisasmOrigin.
 Import ListNotations.
 Open Scope Z_scope.
 
@@ -26,6 +30,33 @@ Proof.
   - exact (forall_range' _ 0 65536 sweep_FDFF w Hw).
 Qed.
 Print Assumptions C07_roundtrip_at_origins_partial.
+
+(* a label-free statement (an instruction without label operand, or .fill with a number) between
+   .orig o and .end assembles, for EVERY origin o at which one word fits below the I/O page and
+   whatever the source spans are, to the single block (o, [its word]); [word_of] does not mention o *)
+Theorem C07_position_independent_ast : forall o n a b c d e f,
+  0 <= o <= 65023 -> label_free n = true ->
+  assemble false None [mkStmt [] (NDir (DOrig o)) a b; mkStmt [] n c d; mkStmt [] (NDir DEnd) e f]
+  = AOk (mkObj [(o, [Some (word_of n)])] None).
+Proof. exact single_statement. Qed.
+Print Assumptions C07_position_independent_ast.
+
+(* the wrapped text of a disassembled word parses, at every origin, to .orig o / one label-free
+   statement whose word is w / .end *)
+Theorem C07_parse_at_origin : forall o w, 0 <= o < 65536 -> 0 <= w < 65536 ->
+  exists n c d e f,
+    parse_ast (wrap_text o (disasm_text w))
+    = POk [mkStmt [] (NDir (DOrig o)) 0 11; mkStmt [] n c d; mkStmt [] (NDir DEnd) e f]
+    /\ label_free n = true /\ word_of n = w.
+Proof. exact parse_at_origin. Qed.
+Print Assumptions C07_parse_at_origin.
+
+(* every word, at every address below the I/O page: disassemble, print, parse, assemble = the word *)
+Theorem C07_roundtrip : forall o w, 0 <= o <= 65023 -> 0 <= w < 65536 ->
+  exists p obj, parse_ast (wrap_text o (disasm_text w)) = POk p /\ assemble false None p = AOk obj
+                /\ o_blocks obj = [(o, [Some w])] /\ o_sym obj = None.
+Proof. exact roundtrip_every_origin. Qed.
+Print Assumptions C07_roundtrip.
 
 (* words below x0200 and non-instructions come back as `.fill <the word>`, all others as instructions *)
 Theorem C07_fill_rule : forall w, 0 <= w < 65536 ->
